@@ -154,6 +154,11 @@ def handle (line : String) : String :=
   -- the configuration binary/cli builds with --filter-by-capabilities. SPECIFICATION: plugins are configured from the flags and THEN
   -- filtered, so enabling the required extractors and validating the requirements succeeds, and no plugin is enabled twice
   | ["cli", _, _, _, _] => "scres=ok sdup=-"
+  -- SPECIFICATION of govulncheck's network requirement: without a local vulnerability database it queries the online one (online = 2);
+  -- with one it needs no network (any = 0)
+  | ["govreq", db] => match unhex? db with
+    | some p => s!"snet={if p.isEmpty then 2 else 0}"
+    | none => "bad-op"
   | ["pre", flt, c, fsn, stn, dn] =>
     match boolOf? flt, capsOf? c, namesOf? fsn, namesOf? stn, namesOf? dn with
     | some flt, some c, some fsn, some stn, some dn =>
